@@ -31,6 +31,7 @@ void thread_request_serializer::update(int delta) {
     constexpr std::uint64_t counter_value = delta_mask + 1;
 
     int prev_pending_delta = my_pending_delta.fetch_add(counter_value + delta);
+    __TBB_VERIF_POINT(vp_serializer_pending, this, prev_pending_delta == pending_delta_base);
 
     // There is a pseudo request aggregator, so only thread that see pending_delta_base in my_pending_delta
     // Will enter to critical section and call adjust_job_count_estimate
@@ -40,6 +41,9 @@ void thread_request_serializer::update(int delta) {
         my_total_request.store(my_total_request.load(std::memory_order_relaxed) + delta, std::memory_order_relaxed);
         delta = limit_delta(delta, my_soft_limit, my_total_request.load(std::memory_order_relaxed));
         my_thread_dispatcher.adjust_job_count_estimate(delta);
+#if ONETBB_VERIF
+        { long v[4] = { delta, my_soft_limit, my_total_request.load(std::memory_order_relaxed), 0 }; __TBB_VERIF_REPORT(vr_serializer_update, this, v, 4); }
+#endif
     }
 }
 
@@ -49,6 +53,9 @@ void thread_request_serializer::set_active_num_workers(int soft_limit) {
     delta = limit_delta(delta, my_total_request.load(std::memory_order_relaxed), soft_limit);
     my_thread_dispatcher.adjust_job_count_estimate(delta);
     my_soft_limit = soft_limit;
+#if ONETBB_VERIF
+    { long v[4] = { delta, my_soft_limit, my_total_request.load(std::memory_order_relaxed), 1 }; __TBB_VERIF_REPORT(vr_serializer_update, this, v, 4); }
+#endif
 }
 
 int thread_request_serializer::limit_delta(int delta, int limit, int new_value) {
